@@ -13,8 +13,8 @@ import (
 
 type Req struct {
 	Verb, Group, Resource, Sub, Name, Path, User string
-	Groups                                         []string
-	IsRes                                          bool
+	Groups                                       []string
+	IsRes                                        bool
 }
 
 func (r Req) Attrs() authorizer.Attributes {
@@ -54,22 +54,23 @@ func Lists(Tokens []string, maxLen int) [][]string {
 var (
 	TokVerbs  = []string{"*", "get", "list", "-get", "-list"}
 	TokGroups = []string{"*", "", "apps", "-", "-apps"}
-	TokRes    = []string{"*", "pods", "pods/status", "*/status", "deployments", "-pods", "-deployments", "-pods/status", "-*/status"}
-	TokNames  = []string{"*", "a", "-a", "-b"}
-	TokUsers  = []string{"*", "alice", "system:*", "-alice", "-system:*"}
-	TokUG     = []string{"*", "g1", "g2", "-g1", "-g2"}
-	TokURL    = []string{"*", "/healthz", "/healthz/*", "/api*", "-/healthz"}
-	SaSets    = [][]proxyv1alpha1.ServiceAccountRef{nil, {{Namespace: "ns", Name: "sa"}}, {{Namespace: "", Name: "sa"}}}
+	// ("status" / "-status": a resource that is NAMED like the subresource the */sub entries speak of)
+	TokRes   = []string{"*", "pods", "pods/status", "*/status", "deployments", "-pods", "-deployments", "-pods/status", "-*/status", "status", "-status"}
+	TokNames = []string{"*", "a", "-a", "-b"}
+	TokUsers = []string{"*", "alice", "system:*", "-alice", "-system:*"}
+	TokUG    = []string{"*", "g1", "g2", "-g1", "-g2"}
+	TokURL   = []string{"*", "/healthz", "/healthz/*", "/api*", "-/healthz"}
+	SaSets   = [][]proxyv1alpha1.ServiceAccountRef{nil, {{Namespace: "ns", Name: "sa"}}, {{Namespace: "", Name: "sa"}}}
 
 	ReqVerbs  = []string{"get", "list", "watch", "ge", "gets"}
 	ReqGroups = []string{"", "apps", "app", "appsx"}
-	ReqRes    = []string{"pods", "deployments", "nodes", "pod", "podsx"}
+	ReqRes    = []string{"pods", "deployments", "nodes", "pod", "podsx", "status"}
 	ReqSubs   = []string{"", "status", "log", "statusx", "stat"}
 	ReqNames  = []string{"", "a", "b", "ab"}
 	ReqPaths  = []string{"/healthz", "/healthz/x", "/api", "/version", "/apis", "/healthzz", "/health", "/healthz/", "/ap", "/x/healthz/y"}
 	ReqUsers  = []string{"alice", "bob", "system:node", "system:serviceaccount:ns:sa", "alicex", "alic", "xalice", "system", "system:", "xsystem:node",
 		"system:serviceaccount:ns-x:sa", "system:serviceaccount:ns:sa2", "system:serviceaccount:xns:sa", "system:serviceaccount:ns:xsa", "system:serviceaccount:n:sa", "system:serviceaccount::sa", "ns:sa"}
-	ReqUG     = [][]string{{}, {"g1"}, {"g2"}, {"g1", "g2"}, {"g3"}, {"g11"}, {"g"}, {"g3", "g2"}}
+	ReqUG = [][]string{{}, {"g1"}, {"g2"}, {"g1", "g2"}, {"g3"}, {"g11"}, {"g"}, {"g3", "g2"}}
 )
 
 type Field struct {
@@ -163,4 +164,3 @@ func Merge(a, b Req, bField string) Req {
 	}
 	return r
 }
-
